@@ -15,6 +15,46 @@ Definition vozss (o : option (list (list Z))) : val := match o with Some l => vz
 (** in-domain checks: out-of-domain arguments are a generator error (VBad) *)
 Definition str_ok (s : list Z) : bool := bytes_okb s.
 
+(** * helpers of the history / batch ops *)
+
+(** batches in compact form: an alphabet of elements and a list of [index; run length] pairs; the
+    batch is the concatenation of [run] copies of element [index] *)
+Fixpoint expand_runs {A} (al : list A) (runs : list (list Z)) : option (list A) :=
+  match runs with
+  | [] => Some []
+  | [idx; run] :: t =>
+      match nthZ al idx, expand_runs al t with
+      | Some e, Some r => if 0 <=? run then Some (repeat e (Z.to_nat run) ++ r)%list else None
+      | _, _ => None
+      end
+  | _ :: _ => None
+  end.
+
+(** windows [lo, hi) of one flat buffer *)
+Fixpoint cut_windows (flat : list Z) (ws : list (list Z)) : option (list (list Z)) :=
+  match ws with
+  | [] => Some []
+  | [lo; hi] :: t =>
+      match cut_windows flat t with
+      | Some r =>
+          if (0 <=? lo) && (lo <=? hi) && (hi <=? zlen flat)
+          then Some (firstn (Z.to_nat (hi - lo)) (skipn (Z.to_nat lo) flat) :: r) else None
+      | None => None
+      end
+  | _ :: _ => None
+  end.
+
+(** one probe of a scribble session: FromStr(p), Get(p, i) for every i, ToStr(FromStr(p)) *)
+Definition probe_run (n : Z) (p : list Z) : val :=
+  let w := newBW n in
+  let ws := FromStr w p in
+  match opt_all (map (Get w p) (zrange (zlen p * (8 / n)))), ToStr w ws with
+  | Some gs, Some s => VL [vzs ws; vzs gs; vzs s]
+  | _, _ => VPanic
+  end.
+Definition probe_spec (n : nat) (p : list Z) : val :=
+  let ws := spec_FromStr n p in VL [vzs ws; vzs ws; vzs p].
+
 Definition ops_C08 : list opdef := [
   {| op_name := "bitword.FromStr";
      op_run := fun a => match a with
@@ -213,5 +253,73 @@ Definition ops_C08 : list opdef := [
      op_spec := fun_spec (fun a => match a with
        | [n; ws] => match as_z n, as_zs ws with
            | Some n, Some ws => vzs (spec_ToStr_any (Z.to_nat n) ws) | _, _ => VBad end
+       | _ => VBad end) |};
+  (* HISTORY ops.  The functions are pure in the model; the executors put the real code through the
+     situations in which hidden sharing would show.
+     Session/scribble [n, scribble, probes]: FromStr of every string of [scribble]; the caller renders
+     and then OVERWRITES each returned word slice; then for every string of [probes]: FromStr, Get at
+     every index, ToStr(FromStr).  A FromStr that hands out internal storage is corrupted by the caller. *)
+  {| op_name := "bitword.Session/scribble";
+     op_run := fun a => match a with
+       | [n; ss; ps] => match as_z n, as_zss ss, as_zss ps with
+           | Some n, Some ss, Some ps =>
+               if width_ok n && forallb str_ok ss && forallb str_ok ps
+               then VL [vzss (map (FromStr (newBW n)) ss); VL (map (probe_run n) ps)] else VBad
+           | _, _, _ => VBad end
+       | _ => VBad end;
+     op_spec := fun_spec (fun a => match a with
+       | [n; ss; ps] => match as_z n, as_zss ss, as_zss ps with
+           | Some n, Some ss, Some ps =>
+               VL [vzss (map (spec_FromStr (Z.to_nat n)) ss); VL (map (probe_spec (Z.to_nat n)) ps)]
+           | _, _, _ => VBad end
+       | _ => VBad end) |};
+  (* FromStrs / ToStrs on big batches, compact arguments [n, alphabet, [[index, run], ...]] *)
+  {| op_name := "bitword.FromStrs/batch";
+     op_run := fun a => match a with
+       | [n; al; runs] => match as_z n, as_zss al, as_zss runs with
+           | Some n, Some al, Some runs => match expand_runs al runs with
+               | Some ss => if width_ok n && forallb str_ok al then vzss (FromStrs (newBW n) ss) else VBad
+               | None => VBad end
+           | _, _, _ => VBad end
+       | _ => VBad end;
+     op_spec := fun_spec (fun a => match a with
+       | [n; al; runs] => match as_z n, as_zss al, as_zss runs with
+           | Some n, Some al, Some runs => match expand_runs al runs with
+               | Some ss => vzss (spec_FromStrs (Z.to_nat n) ss) | None => VBad end
+           | _, _, _ => VBad end
+       | _ => VBad end) |};
+  {| op_name := "bitword.ToStrs/batch";
+     op_run := fun a => match a with
+       | [n; al; runs] => match as_z n, as_zss al, as_zss runs with
+           | Some n, Some al, Some runs => match expand_runs al runs with
+               | Some wss => if width_ok n && forallb (words_inb (Z.to_nat n)) al
+                             then vozss (ToStrs (newBW n) wss) else VBad
+               | None => VBad end
+           | _, _, _ => VBad end
+       | _ => VBad end;
+     op_spec := fun_spec (fun a => match a with
+       | [n; al; runs] => match as_z n, as_zss al, as_zss runs with
+           | Some n, Some al, Some runs => match expand_runs al runs with
+               | Some wss => vzss (spec_ToStrs (Z.to_nat n) wss) | None => VBad end
+           | _, _, _ => VBad end
+       | _ => VBad end) |};
+  (* ToStrs over windows [lo, hi) of ONE flat buffer of in-range words (adjacent, overlapping, prefix
+     then whole); observed: the strings and the buffer afterwards (ToStrs must not write to it) *)
+  {| op_name := "bitword.ToStrs/flat";
+     op_run := fun a => match a with
+       | [n; flat; wins] => match as_z n, as_zs flat, as_zss wins with
+           | Some n, Some flat, Some wins => match cut_windows flat wins with
+               | Some wss => if width_ok n && words_inb (Z.to_nat n) flat
+                             then match ToStrs (newBW n) wss with
+                                  | Some r => VL [vzss r; vzs flat] | None => VPanic end
+                             else VBad
+               | None => VBad end
+           | _, _, _ => VBad end
+       | _ => VBad end;
+     op_spec := fun_spec (fun a => match a with
+       | [n; flat; wins] => match as_z n, as_zs flat, as_zss wins with
+           | Some n, Some flat, Some wins => match cut_windows flat wins with
+               | Some wss => VL [vzss (spec_ToStrs (Z.to_nat n) wss); vzs flat] | None => VBad end
+           | _, _, _ => VBad end
        | _ => VBad end) |}
 ].
